@@ -1,3 +1,4 @@
+import PhysisModel.Driver.Inflate
 import PhysisModel.Driver.C01
 import PhysisModel.Driver.C02
 import PhysisModel.Driver.C03
@@ -22,5 +23,6 @@ def handlers : List (String × (String → String)) := [
   ("C05", C05.handle), ("C06", C06.handle), ("C07", C07.handle), ("C08", C08.handle),
   ("C09", C09.handle), ("C10", C10.handle), ("C11", C11.handle), ("C12", C12.handle),
   ("C13", C13.handle), ("C14", C14.handle), ("C15", C15.handle), ("C16", C16.handle),
-  ("C17", C17.handle), ("C18", C18.handle)]
+  ("C17", C17.handle), ("C18", C18.handle),
+  ("XINF", Inflate.handle)]
 end Physis.Driver
